@@ -1,44 +1,349 @@
 """C05 — telemetry failures never crash, hang or block the host program
-(Faults.tla / FaultsTrace.tla / Corrupt.tla)."""
+(Faults.tla / FaultsTrace.tla: fault plans over recorded call sequences;
+Corrupt.tla / CorruptTrace.tla: counter files that are corrupt at rest)."""
 import json
-import os
 import random
+import re
+from concurrent.futures import ThreadPoolExecutor
 
 from vlib import tlaval
 from vlib.core import Infra, ndjson_text
+
+ERRNOS = ['ENOENT', 'EACCES', 'ENOSPC', 'EIO']
 
 
 def S(op, ctr='', n=0):
     return {'op': op, 'ctr': ctr, 'n': n}
 
 
+# API scenarios of internal/counter.  setup: fresh = no telemetry directory at all, existing = a count file of
+# the current week with counters o1, o2 (independent writer), full = the same with its first page used up.
+# Counters whose name starts with L have 3000-byte names.
 COUNTER_SCENARIOS = [
     dict(name='open', setup='fresh', mode='', steps=[S('open'), S('add', 'c1', 2), S('add', 'c1', 1)]),
-    dict(name='firstadd', setup='existing', mode='local', steps=[S('add', 'c1', 1), S('open'), S('add', 'c1', 2), S('add', 'o1', 3), S('add', 'c2', 1)]),
-    dict(name='growth', setup='full', mode='on 2020-01-01', steps=[S('open'), S('add', 'o1', 1), S('add', 'Lnew', 2), S('add', 'o2', 1), S('add', 'Lnew', 1), S('add', 'c1', 1)]),
-    dict(name='rotation', setup='existing', mode='local', steps=[S('open'), S('add', 'c1', 1), S('add', 'o1', 1), S('week2'), S('rotate'), S('add', 'c1', 2), S('add', 'o1', 1), S('rotate'), S('add', 'c2', 1)]),
-    dict(name='read', setup='existing', mode='on 2020-01-01', steps=[S('open'), S('add', 'c1', 2), S('read', 'c1'), S('add', 'c1', 1), S('read', 'o1'), S('add', 'o2', 1)]),
-    dict(name='rmfile', setup='full', mode='local', steps=[S('open'), S('add', 'o1', 1), S('rmfile'), S('add', 'o1', 1), S('add', 'Lnew', 1), S('read', 'o1'), S('add', 'c1', 1), S('week2'), S('rotate'), S('add', 'o1', 1)]),
-    dict(name='rmdir', setup='full', mode='local', steps=[S('open'), S('add', 'o1', 1), S('rmdir'), S('add', 'o1', 1), S('add', 'Lnew', 1), S('read', 'o1'), S('add', 'c1', 1), S('week2'), S('rotate'), S('add', 'o1', 1)]),
+    dict(name='firstadd', setup='existing', mode='local',
+         steps=[S('add', 'c1', 1), S('open'), S('add', 'c1', 2), S('add', 'o1', 3), S('add', 'c2', 1)]),
+    dict(name='growth', setup='full', mode='on 2020-01-01',
+         steps=[S('open'), S('add', 'o1', 1), S('add', 'Lnew', 2), S('add', 'o2', 1), S('add', 'Lnew', 1), S('add', 'c1', 1)]),
+    dict(name='rotation', setup='existing', mode='local',
+         steps=[S('open'), S('add', 'c1', 1), S('add', 'o1', 1), S('week2'), S('rotate'), S('add', 'c1', 2), S('add', 'o1', 1), S('rotate'), S('add', 'c2', 1)]),
+    dict(name='read', setup='existing', mode='on 2020-01-01',
+         steps=[S('open'), S('add', 'c1', 2), S('read', 'c1'), S('add', 'c1', 1), S('read', 'o1'), S('add', 'o2', 1)]),
+    # files deleted while in use
+    dict(name='rmfile', setup='full', mode='local',
+         steps=[S('open'), S('add', 'o1', 1), S('rmfile'), S('add', 'o1', 1), S('add', 'Lnew', 1), S('read', 'o1'), S('add', 'c1', 1), S('week2'), S('rotate'), S('add', 'o1', 1)]),
+    dict(name='rmdir', setup='full', mode='local',
+         steps=[S('open'), S('add', 'o1', 1), S('rmdir'), S('add', 'o1', 1), S('add', 'Lnew', 1), S('read', 'o1'), S('add', 'c1', 1), S('week2'), S('rotate'), S('add', 'o1', 1)]),
 ]
-
-
+# upload.Run (the exported entry point) on a directory with expired / active / unreadable count files and a waiting report
 UPLOAD_SCENARIOS = [
     dict(name='run_local', mode='local', junk=False, debug=False, steps=['run', 'run']),
     dict(name='run_on', mode='on 2020-01-01', junk=False, debug=True, steps=['run', 'run']),
     dict(name='run_on_junk', mode='on 2020-01-01', junk=True, debug=False, steps=['run']),
     dict(name='run_nomode', mode='', junk=True, debug=False, steps=['run']),
 ]
+PAIR_SCENARIOS = {'open', 'firstadd', 'growth', 'rotation', 'read', 'run_local', 'run_on'}
+LEAF = ('load32', 'cas32', 'entryAt', 'load', 'update', 'Load', 'Store', 'CompareAndSwap')
+
+
+def printed(out, tag):
+    """The value of ASSUME PrintT(<<tag, value>>) in TLC's output."""
+    j = out.find('"%s"' % tag)
+    if j < 0:
+        return None
+    i = out.rfind('<<', 0, j)
+    depth, k = 0, i
+    while k < len(out):
+        if out.startswith('<<', k):
+            depth += 1
+            k += 2
+            continue
+        if out.startswith('>>', k):
+            depth -= 1
+            k += 2
+            if depth == 0:
+                break
+            continue
+        if out[k] == '"':
+            k = out.index('"', k + 1)
+        k += 1
+    return tlaval.parse(out[i:k])[1]
+
+
+def hang_fn(label):
+    """The function a non-returning call loops in: the outermost frame of the
+    yield label that is not a leaf accessor."""
+    parts = [p for p in (label or '').split('<') if p]
+    for p in parts:
+        if not any(p.endswith('.' + x) or p == x for x in LEAF):
+            return p
+    return parts[0] if parts else '?'
+
+
+def pcclass(pc):
+    return pc.split(':')[0]
 
 
 def run(ctx):
+    ctx.assumptions += [
+        'faults are injected at the file-system / mmap / HTTP calls the CURRENT tree makes in the recorded scenarios (the recording is redone on every run); '
+        'plans are single faults and pairs; errnos ENOENT, EACCES, ENOSPC, EIO; no short writes; the failing call has no side effect',
+        'one goroutine; a private counter file value per case (not the process-wide default file); CounterTime and build info fixed; '
+        'the time.AfterFunc rotation timer is replaced by explicit rotate calls',
+        'step budget: every atomic operation, lock acquisition and shimmed call of internal/counter, internal/upload and internal/telemetry counts as one step; '
+        'a call that exceeds the budget (20000 for counter calls, 200000 for upload.Run; fault-free calls need < 2500) is a hang',
+        'the class an outcome must have is taken from the documentation (rotate1/openMapped/weekEnd/Add/Dir.Mode/createReport comments); where it is silent '
+        '(e.g. an Add after its own growth failed, a name longer than 4096 bytes inside the file, an unaligned or too large limit) only the universal clauses are decided',
+        'the uploader clause "a count file is deleted only if a report of its week exists" is the documented behaviour of createReport, used as the outcome class of upload.Run under faults',
+        'other counters\' values are read by the independent decoder rt.DecodeV1 from the files on disk (MAP_SHARED coherence of the kernel is trusted); '
+        'a counter that the decoder could not reach before the operation is not an "other counter"',
+        'corrupt files: one base layout (records E and C in one bucket, V alone on the second page), damage classes concretized by fixed representative values; '
+        'random damage uses 32-aligned or out-of-range pointers only, so that decoder and library agree on which records exist',
+        'truncation of a file that is currently mapped is outside the property; files deleted while in use are scenario steps (rmfile / rmdir)',
+        'mode on: the uploader fetches its config through a file proxy (go mod download) as the repository tests do; the exec itself is not a fault point',
+    ]
     ctx.inject('internal/counter', 'internal/upload', 'internal/verifh/c05')
     ctx.log(ctx.instrument('-files', 'internal/counter', 'internal/upload', 'internal/telemetry').strip())
-    recs, rc, out = ctx.run_harness('./internal/counter', 'TestVerifC05Faults', inp={'scenarios': COUNTER_SCENARIOS, 'plans': []})
-    for r in recs:
-        print(r['scn'], r['ncalls'], [(s['op'], s['ret'], s['steps']) for s in r['steps']])
-    recs, rc, out = ctx.run_harness('./internal/upload', 'TestVerifC05Upload', inp={'scenarios': UPLOAD_SCENARIOS, 'plans': []})
-    for r in recs:
-        print(r['scn'], r['ncalls'], r['posts'], r['tree'])
-        print(json.dumps(r['steps']))
-        print([(c['i'], c['step'], c['kind'], c['pc'], c.get('err', False)) for c in r['calls']])
+    rng = random.Random(ctx.seed)
+    # the corruption product is enumerated by TLC while the scenarios are being recorded
+    pool = ThreadPoolExecutor(max_workers=2)
+    maxdmg = ctx.pick(3, 6)
+    fut_corrupt = pool.submit(ctx.tlc, 'Corrupt', cfg_text='SPECIFICATION Spec\nINVARIANT Sane\nCHECK_DEADLOCK FALSE\nCONSTANTS\n MaxDamage = %d\n' % maxdmg,
+                              dump=True, workers=4, label='Corrupt (MaxDamage=%d)' % maxdmg)
+    faults_part(ctx, rng)
+    corrupt_part(ctx, rng, fut_corrupt.result())
+    pool.shutdown()
+    ctx.cov['rule'] = ('a case is one fault plan (which calls fail with which errno) replayed over one API scenario of the instrumented real packages, or one corrupt '
+                       'counter file written to disk and opened + incremented by the real library; each is decided by TLC against Faults.tla / Corrupt.tla')
+
+
+# --------------------------------------------------------------------------- faults
+def faults_part(ctx, rng):
+    crecs, _, out = ctx.run_harness('./internal/counter', 'TestVerifC05Faults', inp={'scenarios': COUNTER_SCENARIOS, 'plans': [], 'budget': 20000})
+    urecs, _, out2 = ctx.run_harness('./internal/upload', 'TestVerifC05Upload', inp={'scenarios': UPLOAD_SCENARIOS, 'plans': [], 'budget': 200000})
+    recording = {r['scn']: r for r in crecs + urecs if r.get('kind') == 'recording'}
+    scns = [(s, 'counter') for s in COUNTER_SCENARIOS] + [(s, 'upload') for s in UPLOAD_SCENARIOS]
+    if len(recording) != len(scns):
+        raise Infra('C05: %d recordings for %d scenarios\n%s\n%s' % (len(recording), len(scns), out[-1500:], out2[-1500:]))
+    lines, index = [], {}
+    for s, fam in scns:
+        r = recording[s['name']]
+        steps = s['steps'] if fam == 'counter' else [S(o) for o in s['steps']]
+        lines.append(dict(scn=s['name'], family=fam, pairs=s['name'] in PAIR_SCENARIOS, steps=steps,
+                          calls=[dict(i=c['i'], step=c['step'], op=c['op'], kind=c['kind'], pc=c['pc'], err=bool(c.get('err'))) for c in r['calls']]))
+        index[s['name']] = len(lines)
+    ctx.cov['recorded_calls'] = {l['scn']: len(l['calls']) for l in lines}
+    ctx.sample({'kind': 'recorded call sequence', 'scenario': 'rotation',
+                'calls': ['%s:%s@%s' % (c['op'], c['kind'], c['pc']) for c in lines[index['rotation'] - 1]['calls']]})
+    rec_text = ndjson_text(lines)
+
+    # ---- model: every single and pairwise plan with its predicted class ----------
+    combos = [(a, b) for a in ERRNOS for b in ERRNOS]
+    rng.shuffle(combos)
+    pair_errnos = combos[:ctx.pick(1, 3)]
+    mc = ('---- MODULE MCFaults ----\nEXTENDS Faults\nMCErrnos == {%s}\nMCPairErrnos == {%s}\n====\n' % (
+        ', '.join('"%s"' % e for e in ERRNOS), ', '.join('<<"%s", "%s">>' % p for p in pair_errnos)))
+    cfg = 'SPECIFICATION Spec\nINVARIANT Sane\nCHECK_DEADLOCK FALSE\nCONSTANTS\n Errnos <- MCErrnos\n PairErrnos <- MCPairErrnos\n'
+    r = ctx.tlc('MCFaults', cfg_text=cfg, files={'c05rec.ndjson': rec_text, 'MCFaults.tla': mc}, dump=True, label='Faults (plans x predicted class)', timeout=2400)
+    if not r.ok:
+        raise Infra('Faults.tla: spec-level sanity failed: %s %s\n%s' % (r.error, r.error_name, r.out[-3000:]))
+    plans = {}
+    for st in tlaval.read_dump(r.dump):
+        plans.setdefault(lines[st['scn'] - 1]['scn'], []).append((tuple(tuple(f) for f in st['fplan']), st['pred']))
+    ctx.cov['plans_enumerated'] = {k: len(v) for k, v in plans.items()}
+    ctx.cov['pair_errnos'] = ['%s+%s' % p for p in pair_errnos]
+
+    # ---- which plans are replayed ---------------------------------------------------
+    def select(name, fam):
+        ps = sorted(plans.get(name, []))
+        single = [p for p in ps if len(p[0]) <= 1]
+        pair = [p for p in ps if len(p[0]) == 2]
+        if fam == 'counter' or ctx.thorough():
+            cap_pairs = len(pair) if fam == 'counter' else 2600
+        else:
+            cap_pairs = {'run_local': 250, 'run_on': 60}.get(name, 0)
+            if name != 'run_local':
+                # the config download makes a mode-on run cost ~50 ms: one errno per call in the quick tier
+                keep = {}
+                for p in single:
+                    if p[0]:
+                        keep.setdefault(p[0][0][0], []).append(p)
+                single = [p for p in single if not p[0]] + [rng.choice(v) for _, v in sorted(keep.items())]
+        if len(pair) > cap_pairs:
+            pair = rng.sample(pair, cap_pairs)
+        return single + pair
+
+    cplans, uplans, meta = [], [], {}
+    for s, fam in scns:
+        for (pl, pred) in select(s['name'], fam):
+            pid = len(meta) + 1
+            meta[pid] = (s['name'], fam, pl, pred)
+            (cplans if fam == 'counter' else uplans).append(dict(id=pid, scn=s['name'], faults=[dict(idx=i, errno=e) for (i, e) in pl]))
+    ctx.log('fault plans to replay: counter %d, upload %d' % (len(cplans), len(uplans)))
+    crecs, _, out = ctx.run_harness('./internal/counter', 'TestVerifC05Faults', inp={'scenarios': COUNTER_SCENARIOS, 'plans': cplans, 'budget': 20000}, timeout=2400)
+    urecs, _, out2 = ctx.run_harness('./internal/upload', 'TestVerifC05Upload', inp={'scenarios': UPLOAD_SCENARIOS, 'plans': uplans, 'budget': 200000}, timeout=3000)
+    cases = {r['id']: r for r in crecs + urecs if r.get('kind') == 'case'}
+    if len(cases) != len(meta):
+        raise Infra('C05: %d results for %d fault plans\n%s\n%s' % (len(cases), len(meta), out[-1500:], out2[-1500:]))
+    ctx.cov['fault_plans_replayed'] = len(cases)
+    ctx.cov['evaluations'] += len(cases)
+    ctx.cov['faults_fired'] = sum(len(c['fired']) for c in cases.values())
+    ctx.cov['panics_recovered_by_Run'] = sum(s.get('recovered', 0) for c in cases.values() for s in c['steps'])
+
+    # ---- code -> model: TLC decides every observed step ----------------------------
+    obs, ids = [], []
+    for pid in sorted(cases):
+        name, fam, pl, pred = meta[pid]
+        c = cases[pid]
+        steps = []
+        for s in c['steps']:
+            if fam == 'counter':
+                steps.append({k: s[k] for k in ('op', 'n', 'ret', 'parked', 'cur', 'today', 'others', 'files', 'dP', 'dE', 'pe', 'rv', 'pv', 'rerr')})
+            else:
+                steps.append({k: s[k] for k in ('op', 'ret', 'orphans', 'touched')})
+        obs.append(dict(id=pid, scn=index[name], plan=[[i, e] for (i, e) in pl],
+                        fired=[dict(idx=f['idx'], step=f['step'], kind=f['kind'], pc=f['pc']) for f in c['fired']], steps=steps))
+        ids.append(pid)
+    bad, diverged = [], []
+    chunk = 6000
+    tcfg = 'SPECIFICATION TSpec\nCHECK_DEADLOCK FALSE\nCONSTANTS\n Errnos <- MCErrnos\n PairErrnos <- MCPairErrnos\n'
+    tmc = mc.replace('MODULE MCFaults', 'MODULE MCFaultsTrace').replace('EXTENDS Faults', 'EXTENDS FaultsTrace')
+    jobs = []
+    for i in range(0, len(obs), chunk):
+        jobs.append((('MCFaultsTrace',), dict(cfg_text=tcfg, files={'c05rec.ndjson': rec_text, 'c05obs.ndjson': ndjson_text(obs[i:i + chunk]), 'MCFaultsTrace.tla': tmc},
+                                              workers=1, label='FaultsTrace[%d]' % (i // chunk), count=False, timeout=2400)))
+    for k, r in enumerate(ctx.tlc_many(jobs, par=4)):
+        b, d = printed(r.out, 'C05BAD'), printed(r.out, 'C05DIV')
+        if b is None or d is None or not r.ok:
+            raise Infra('FaultsTrace: no verdict (%s)\n%s' % (r.error, r.out[-3000:]))
+        bad += [(ids[k * chunk + x[0] - 1], x[1], x[2]) for x in b]
+        diverged += [ids[k * chunk + x - 1] for x in d]
+    okcases = set(ids) - {b[0] for b in bad} - set(diverged)
+    ctx.cov['traces_validated_against_impl'] += len(okcases)
+    ctx.cov['divergences'] += len(diverged)
+    for pid in sorted(diverged)[:5]:
+        name, fam, pl, pred = meta[pid]
+        ctx.warn('MODEL-DIVERGENCE fault plan %s of scenario %s did not hit the recorded calls: fired %s' % (list(pl), name, json.dumps(cases[pid]['fired'])))
+    for (pid, k, rule) in sorted(bad):
+        name, fam, pl, pred = meta[pid]
+        c = cases[pid]
+        st = c['steps'][k - 1]
+        fired = [f for f in c['fired'] if f['step'] <= k]
+        fdesc = '+'.join(sorted({'%s@%s' % (f['kind'], pcclass(f['pc'])) for f in fired})) or 'fault-free'
+        sig = 'C05:fault:%s:%s:%s' % (rule, st['op'], fdesc)
+        if rule in ('hang', 'blocked'):
+            sig = 'C05:fault:%s:%s:%s:%s' % (rule, hang_fn(st.get('where')), st['op'], fdesc)
+        elif rule in ('panic', 'memfault'):
+            sig = 'C05:fault:%s:%s:%s:%s' % (rule, st.get('where') or '?', st['op'], fdesc)
+        scn = [s for s, _ in scns if s['name'] == name][0]
+        ctx.violation(sig, {'scenario': scn, 'plan': [dict(idx=i, errno=e) for (i, e) in pl], 'fired': c['fired'], 'step': k, 'rule': rule,
+                            'observed': c['steps'], 'predicted': pred},
+                      'scenario %s, plan %s (fired: %s): step %d (%s %s) breaks "%s": %s' % (
+                          name, list(pl) or 'fault-free', ', '.join('%s %s@%s' % (f['errno'], f['kind'], f['pc']) for f in c['fired']) or '-', k, st['op'],
+                          st.get('ctr', ''), rule, json.dumps({x: st[x] for x in st if x not in ('where',)})[:700]))
+    some = [pid for pid in sorted(cases) if len(meta[pid][2]) == 2 and meta[pid][1] == 'counter']
+    if some:
+        pid = some[len(some) // 2]
+        ctx.sample({'kind': 'fault plan', 'scenario': meta[pid][0], 'plan': list(meta[pid][2]), 'fired': cases[pid]['fired'], 'predicted': meta[pid][3],
+                    'observed': [{k: s[k] for k in ('op', 'ctr', 'ret', 'parked', 'dP', 'dE')} for s in cases[pid]['steps']]})
+    some = [pid for pid in sorted(cases) if meta[pid][1] == 'upload' and cases[pid]['fired']]
+    if some:
+        pid = some[len(some) // 3]
+        ctx.sample({'kind': 'fault plan', 'scenario': meta[pid][0], 'plan': list(meta[pid][2]), 'fired': cases[pid]['fired'],
+                    'observed': [{k: s[k] for k in ('op', 'ret', 'err', 'recovered', 'deleted', 'orphans', 'touched')} for s in cases[pid]['steps']], 'tree': cases[pid].get('tree')})
+    ctx.cov['distinct_nontrivial'] += len({(meta[p][0], tuple(i for i, _ in meta[p][2])) for p in cases})
+
+
+# -------------------------------------------------------------------------- corrupt
+DIMS = ('hdr', 'trunc', 'limit', 'headE', 'headN', 'nlenC', 'nextC', 'nextE')
+UNDAMAGED = dict(hdr='ok', trunc='none', limit='ok', headE='ok', headN='zero', nlenC='ok', nextC='ok', nextE='ok')
+
+
+def corrupt_part(ctx, rng, r):
+    if not r.ok:
+        raise Infra('Corrupt.tla: spec-level sanity failed: %s %s\n%s' % (r.error, r.error_name, r.out[-3000:]))
+    vectors = [(st['file'], st['op'], st['exp']) for st in tlaval.read_dump(r.dump)]
+    ctx.cov['corrupt_vectors_enumerated'] = len(vectors)
+
+    def damage(f):
+        return sum(1 for d in DIMS if f[d] != UNDAMAGED[d])
+
+    def cyclic(f, op):
+        # lookups that may meet a damaged link (the known non-terminating walk costs a full step budget each)
+        return op != 'addN' and (f['nextC'] == 'self' or f['nextE'] in ('self', 'cycle2'))
+    sel = []
+    if ctx.thorough():
+        slow = [v for v in vectors if cyclic(v[0], v[1])]
+        sel = [v for v in vectors if not cyclic(v[0], v[1])] + (rng.sample(slow, 6000) if len(slow) > 6000 else slow)
+    else:
+        lo = [v for v in vectors if damage(v[0]) <= 2 or v[0]['hdr'] != 'ok' or v[0]['trunc'] != 'none']
+        hi = [v for v in vectors if not (damage(v[0]) <= 2 or v[0]['hdr'] != 'ok' or v[0]['trunc'] != 'none')]
+        slow = [v for v in hi if cyclic(v[0], v[1])]
+        fast = [v for v in hi if not cyclic(v[0], v[1])]
+        sel = lo + rng.sample(fast, min(len(fast), 2500)) + rng.sample(slow, min(len(slow), 150))
+    cases = []
+    for (f, op, exp) in sel:
+        c = dict(f)
+        c.update(id=len(cases) + 1, op=op, rand=0)
+        cases.append(c)
+    nenum = len(cases)
+    for k in range(ctx.pick(1500, 20000)):
+        c = dict(UNDAMAGED)
+        c.update(id=len(cases) + 1, op=['addE', 'addN', 'addM'][k % 3], rand=rng.randrange(1, 1 << 40))
+        cases.append(c)
+    ctx.log('corrupt files to replay: %d enumerated + %d random' % (nenum, len(cases) - nenum))
+    recs, _, out = ctx.run_harness('./internal/counter', 'TestVerifC05Corrupt', inp={'cases': cases, 'budget': 3000}, timeout=3000)
+    res = {x['id']: x for x in recs if x.get('kind') == 'case'}
+    if len(res) != len(cases):
+        raise Infra('C05: %d results for %d corrupt files\n%s' % (len(res), len(cases), out[-2000:]))
+    ctx.cov['corrupt_files_replayed'] = len(cases)
+    ctx.cov['evaluations'] += len(cases)
+    lines = []
+    for c in cases:
+        o = res[c['id']]
+        lines.append(dict(free=bool(c['rand']), file={d: c[d] for d in DIMS}, op=c['op'],
+                          o=dict(open=o['open'], ret=o['ret'], mode=o['mode'], others=o['others'], untouched=o['untouched'])))
+    bad = []
+    chunk = 40000
+    jobs = [(('CorruptTrace',), dict(files={'c05corrupt.ndjson': ndjson_text(lines[i:i + chunk])}, workers=1, label='CorruptTrace[%d]' % (i // chunk), count=False, timeout=2400))
+            for i in range(0, len(lines), chunk)]
+    for k, r in enumerate(ctx.tlc_many(jobs, par=4)):
+        b = printed(r.out, 'C05CBAD')
+        if b is None or not r.ok:
+            raise Infra('CorruptTrace: no verdict (%s)\n%s' % (r.error, r.out[-3000:]))
+        bad += [(k * chunk + x[0], x[1], x[2]) for x in b]
+    ctx.cov['traces_validated_against_impl'] += len(cases) - len({b[0] for b in bad})
+    outcome = {}
+    for c in cases:
+        o = res[c['id']]
+        key = '%s/%s/%s' % (o['open'], o['ret'], o['mode'])
+        outcome[key] = outcome.get(key, 0) + 1
+    ctx.cov['corrupt_outcomes'] = outcome
+    for (cid, verdict, lookup) in sorted(bad):
+        c, o = cases[cid - 1], res[cid]
+        free = bool(c['rand'])
+        look = o.get('chain', '-') if free else lookup
+        dmg = o.get('damage') if free else {d: c[d] for d in DIMS if c[d] != UNDAMAGED[d]}
+        lim = o.get('limClass', '-') if free else c['limit']
+        if verdict in ('hang', 'blocked'):
+            sig = 'C05:corrupt:%s:%s:lookup=%s' % (verdict, hang_fn(o.get('where')), look)
+        elif verdict in ('panic', 'memfault'):
+            sig = 'C05:corrupt:%s:%s:lookup=%s' % (verdict, o.get('where') or '?', look)
+        elif verdict == 'other-counter-changed':
+            sig = 'C05:corrupt:other-counter-changed:lookup=%s:limit=%s' % (look, lim)
+        else:
+            sig = 'C05:corrupt:%s:%s:%s' % (verdict, c['op'], 'random' if free else '+'.join('%s=%s' % (d, c[d]) for d in DIMS if c[d] != UNDAMAGED[d]))
+        ctx.violation(sig, {'case': c, 'damage': dmg, 'observed': o},
+                      'corrupt file at rest (%s), then open + %s: %s%s; observed open=%s ret=%s mode=%s dP=%s dE=%s %s %s' % (
+                          json.dumps(dmg), c['op'], verdict, (' (lookup class %s)' % look), o['open'], o['ret'], o['mode'], o.get('dP'), o.get('dE'),
+                          ('lost: ' + o['lost']) if o.get('lost') else '', (o.get('where', '') + ' ' + o.get('text', '')).strip()))
+    pick = [c for c in cases[:nenum] if sum(1 for d in DIMS if c[d] != UNDAMAGED[d]) == 2]
+    if pick:
+        c = pick[len(pick) // 2]
+        ctx.sample({'kind': 'corrupt file', 'damage': {d: c[d] for d in DIMS if c[d] != UNDAMAGED[d]}, 'op': c['op'],
+                    'observed': {k: res[c['id']][k] for k in ('open', 'ret', 'mode', 'dP', 'dE', 'others', 'untouched')}})
+    if len(cases) > nenum:
+        c = cases[nenum]
+        ctx.sample({'kind': 'randomly damaged file', 'damage': res[c['id']].get('damage'), 'op': c['op'],
+                    'observed': {k: res[c['id']][k] for k in ('open', 'ret', 'mode', 'others', 'limClass', 'chain')}})
+    ctx.cov['distinct_nontrivial'] += len({tuple(sorted((k, str(v)) for k, v in c.items() if k != 'id')) for c in cases})
